@@ -243,13 +243,14 @@ theorem Bar.skipToNextEntryStart_le (hb : Bar s n E) {p q q1 : Nat} (hp : p < n)
 
 /-! ## one iteration of each loop, with the accumulators as extensions -/
 
-theorem parseLoop_step_app {s : Src} {F N : Nat} {body : List (Entry Span)} {errs : List PErr}
+theorem parseLoop_step_loc {s : Src} {F N : Nat} {body : List (Entry Span)} {errs : List PErr}
     {lc : Option (List Span)} {cnt p : Nat} {r : List (Entry Span) × List PErr} (hp : p < s.size)
     (h : parseLoop s F (N + 1) body errs lc cnt p = .done r) :
     ∃ mid em lc' cnt' p', parseLoop s F N (body ++ mid) (errs ++ em) lc' cnt' p' = .done r ∧
-      ((∃ e q, getEntry s F p = .ok e q ∧ p' = (skipBlankBlock s q).1) ∨
-       (∃ e q q1, getEntry s F p = .err e q ∧ skipToNextEntryStart s p q = some q1 ∧
-          p' = (skipBlankBlock s q1).1)) := by
+      ((∃ e q, getEntry s F p = .ok e q ∧ p' = (skipBlankBlock s q).1 ∧ junkSpans mid = [] ∧ em = []) ∨
+       (∃ e q q1 content, getEntry s F p = .err e q ∧ skipToNextEntryStart s p q = some q1 ∧
+          p' = (skipBlankBlock s q1).1 ∧ slice s p q1 = some content ∧ junkSpans mid = [content] ∧
+          em = [{ clampErr e q1 with slice := some (p, q1) }])) := by
   unfold parseLoop at h
   simp only [hp, if_true] at h
   cases hr : getEntry s F p with
@@ -259,31 +260,38 @@ theorem parseLoop_step_app {s : Src} {F N : Nat} {body : List (Entry Span)} {err
     | none =>
       simp only [hr] at h
       cases ent with
-      | comment c => exact ⟨[], [], _, _, _, by simpa using h, Or.inl ⟨_, _, rfl, rfl⟩⟩
+      | comment c => exact ⟨[], [], _, _, _, by simpa using h, Or.inl ⟨_, _, rfl, rfl, rfl, rfl⟩⟩
       | junk c => simp [Entry.isJunk] at hnj
-      | message m => exact ⟨[.message m], [], _, _, _, by simpa using h, Or.inl ⟨_, _, rfl, rfl⟩⟩
-      | term t => exact ⟨[.term t], [], _, _, _, by simpa using h, Or.inl ⟨_, _, rfl, rfl⟩⟩
-      | groupComment c => exact ⟨[.groupComment c], [], _, _, _, by simpa using h, Or.inl ⟨_, _, rfl, rfl⟩⟩
-      | resourceComment c => exact ⟨[.resourceComment c], [], _, _, _, by simpa using h, Or.inl ⟨_, _, rfl, rfl⟩⟩
+      | message m => exact ⟨[.message m], [], _, _, _, by simpa using h, Or.inl ⟨_, _, rfl, rfl, rfl, rfl⟩⟩
+      | term t => exact ⟨[.term t], [], _, _, _, by simpa using h, Or.inl ⟨_, _, rfl, rfl, rfl, rfl⟩⟩
+      | groupComment c =>
+        exact ⟨[.groupComment c], [], _, _, _, by simpa using h, Or.inl ⟨_, _, rfl, rfl, rfl, rfl⟩⟩
+      | resourceComment c =>
+        exact ⟨[.resourceComment c], [], _, _, _, by simpa using h, Or.inl ⟨_, _, rfl, rfl, rfl, rfl⟩⟩
     | some c0 =>
       simp only [hr] at h
       cases ent with
-      | comment c => exact ⟨[.comment c0], [], _, _, _, by simpa using h, Or.inl ⟨_, _, rfl, rfl⟩⟩
+      | comment c => exact ⟨[.comment c0], [], _, _, _, by simpa using h, Or.inl ⟨_, _, rfl, rfl, rfl, rfl⟩⟩
       | junk c => simp [Entry.isJunk] at hnj
       | message m =>
         by_cases hl : cnt < 2
         · simp only [hl, if_true] at h
-          exact ⟨[.message { m with comment := some c0 }], [], _, _, _, by simpa using h, Or.inl ⟨_, _, rfl, rfl⟩⟩
+          exact ⟨[.message { m with comment := some c0 }], [], _, _, _, by simpa using h,
+            Or.inl ⟨_, _, rfl, rfl, rfl, rfl⟩⟩
         · simp only [hl, if_false] at h
-          exact ⟨[.comment c0, .message m], [], _, _, _, by simpa using h, Or.inl ⟨_, _, rfl, rfl⟩⟩
+          exact ⟨[.comment c0, .message m], [], _, _, _, by simpa using h, Or.inl ⟨_, _, rfl, rfl, rfl, rfl⟩⟩
       | term t =>
         by_cases hl : cnt < 2
         · simp only [hl, if_true] at h
-          exact ⟨[.term { t with comment := some c0 }], [], _, _, _, by simpa using h, Or.inl ⟨_, _, rfl, rfl⟩⟩
+          exact ⟨[.term { t with comment := some c0 }], [], _, _, _, by simpa using h,
+            Or.inl ⟨_, _, rfl, rfl, rfl, rfl⟩⟩
         · simp only [hl, if_false] at h
-          exact ⟨[.comment c0, .term t], [], _, _, _, by simpa using h, Or.inl ⟨_, _, rfl, rfl⟩⟩
-      | groupComment c => exact ⟨[.comment c0, .groupComment c], [], _, _, _, by simpa using h, Or.inl ⟨_, _, rfl, rfl⟩⟩
-      | resourceComment c => exact ⟨[.comment c0, .resourceComment c], [], _, _, _, by simpa using h, Or.inl ⟨_, _, rfl, rfl⟩⟩
+          exact ⟨[.comment c0, .term t], [], _, _, _, by simpa using h, Or.inl ⟨_, _, rfl, rfl, rfl, rfl⟩⟩
+      | groupComment c =>
+        exact ⟨[.comment c0, .groupComment c], [], _, _, _, by simpa using h, Or.inl ⟨_, _, rfl, rfl, rfl, rfl⟩⟩
+      | resourceComment c =>
+        exact ⟨[.comment c0, .resourceComment c], [], _, _, _, by simpa using h,
+          Or.inl ⟨_, _, rfl, rfl, rfl, rfl⟩⟩
   | err er q =>
     cases lc with
     | none =>
@@ -294,7 +302,7 @@ theorem parseLoop_step_app {s : Src} {F N : Nat} {body : List (Entry Span)} {err
         split at h
         · rename_i content hcontent
           exact ⟨[.junk content], [{ clampErr er q1 with slice := some (p, q1) }], _, _, _, h,
-            Or.inr ⟨_, _, _, rfl, hq1, rfl⟩⟩
+            Or.inr ⟨_, _, _, _, rfl, hq1, rfl, hcontent, rfl, rfl⟩⟩
         · cases h
     | some c0 =>
       simp only [hr] at h
@@ -304,26 +312,42 @@ theorem parseLoop_step_app {s : Src} {F N : Nat} {body : List (Entry Span)} {err
         split at h
         · rename_i content hcontent
           exact ⟨[.comment c0, .junk content], [{ clampErr er q1 with slice := some (p, q1) }], _, _, _,
-            by simpa using h, Or.inr ⟨_, _, _, rfl, hq1, rfl⟩⟩
+            by simpa using h, Or.inr ⟨_, _, _, _, rfl, hq1, rfl, hcontent, rfl, rfl⟩⟩
         · cases h
   | panic m => cases lc <;> simp [hr] at h
   | fuel => cases lc <;> simp [hr] at h
 
-theorem parseRuntimeLoop_step_app {s : Src} {F N : Nat} {body : List (Entry Span)} {errs : List PErr}
+theorem parseLoop_step_app {s : Src} {F N : Nat} {body : List (Entry Span)} {errs : List PErr}
+    {lc : Option (List Span)} {cnt p : Nat} {r : List (Entry Span) × List PErr} (hp : p < s.size)
+    (h : parseLoop s F (N + 1) body errs lc cnt p = .done r) :
+    ∃ mid em lc' cnt' p', parseLoop s F N (body ++ mid) (errs ++ em) lc' cnt' p' = .done r ∧
+      ((∃ e q, getEntry s F p = .ok e q ∧ p' = (skipBlankBlock s q).1) ∨
+       (∃ e q q1, getEntry s F p = .err e q ∧ skipToNextEntryStart s p q = some q1 ∧
+          p' = (skipBlankBlock s q1).1)) := by
+  obtain ⟨mid, em, lc', cnt', p', hloop, hcase⟩ := parseLoop_step_loc hp h
+  refine ⟨mid, em, lc', cnt', p', hloop, ?_⟩
+  rcases hcase with ⟨e, q, hr, hp', _, _⟩ | ⟨e, q, q1, _, hr, hq1, hp', _, _, _⟩
+  · exact Or.inl ⟨e, q, hr, hp'⟩
+  · exact Or.inr ⟨e, q, q1, hr, hq1, hp'⟩
+
+theorem parseRuntimeLoop_step_loc {s : Src} {F N : Nat} {body : List (Entry Span)} {errs : List PErr}
     {p : Nat} {r : List (Entry Span) × List PErr} (hp : p < s.size)
     (h : parseRuntimeLoop s F (N + 1) body errs p = .done r) :
     ∃ mid em p', parseRuntimeLoop s F N (body ++ mid) (errs ++ em) p' = .done r ∧
-      ((∃ o q, getEntryRuntime s F p = .ok o q ∧ p' = (skipBlankBlock s q).1) ∨
-       (∃ e q q1, getEntryRuntime s F p = .err e q ∧ skipToNextEntryStart s p q = some q1 ∧
-          p' = (skipBlankBlock s q1).1)) := by
+      ((∃ o q, getEntryRuntime s F p = .ok o q ∧ p' = (skipBlankBlock s q).1 ∧ junkSpans mid = [] ∧ em = []) ∨
+       (∃ e q q1 content, getEntryRuntime s F p = .err e q ∧ skipToNextEntryStart s p q = some q1 ∧
+          p' = (skipBlankBlock s q1).1 ∧ slice s p q1 = some content ∧ junkSpans mid = [content] ∧
+          em = [{ clampErr e q1 with slice := some (p, q1) }])) := by
   unfold parseRuntimeLoop at h
   simp only [hp, if_true] at h
   cases hr : getEntryRuntime s F p with
   | ok o q =>
     simp only [hr] at h
     cases o with
-    | none => exact ⟨[], [], _, by simpa using h, Or.inl ⟨_, _, rfl, rfl⟩⟩
-    | some ent => exact ⟨[ent], [], _, by simpa using h, Or.inl ⟨_, _, rfl, rfl⟩⟩
+    | none => exact ⟨[], [], _, by simpa using h, Or.inl ⟨_, _, rfl, rfl, rfl, rfl⟩⟩
+    | some ent =>
+      have hnj := getEntryRuntime_not_junk s F p ent q hr
+      exact ⟨[ent], [], _, by simpa using h, Or.inl ⟨_, _, rfl, rfl, junkSpans_single_nonjunk ent hnj, rfl⟩⟩
   | err er q =>
     simp only [hr] at h
     split at h
@@ -332,12 +356,91 @@ theorem parseRuntimeLoop_step_app {s : Src} {F N : Nat} {body : List (Entry Span
       split at h
       · rename_i content hcontent
         exact ⟨[.junk content], [{ clampErr er q1 with slice := some (p, q1) }], _, h,
-          Or.inr ⟨_, _, _, rfl, hq1, rfl⟩⟩
+          Or.inr ⟨_, _, _, _, rfl, hq1, rfl, hcontent, rfl, rfl⟩⟩
       · cases h
   | panic m => simp [hr] at h
   | fuel => simp [hr] at h
 
+theorem parseRuntimeLoop_step_app {s : Src} {F N : Nat} {body : List (Entry Span)} {errs : List PErr}
+    {p : Nat} {r : List (Entry Span) × List PErr} (hp : p < s.size)
+    (h : parseRuntimeLoop s F (N + 1) body errs p = .done r) :
+    ∃ mid em p', parseRuntimeLoop s F N (body ++ mid) (errs ++ em) p' = .done r ∧
+      ((∃ o q, getEntryRuntime s F p = .ok o q ∧ p' = (skipBlankBlock s q).1) ∨
+       (∃ e q q1, getEntryRuntime s F p = .err e q ∧ skipToNextEntryStart s p q = some q1 ∧
+          p' = (skipBlankBlock s q1).1)) := by
+  obtain ⟨mid, em, p', hloop, hcase⟩ := parseRuntimeLoop_step_loc hp h
+  refine ⟨mid, em, p', hloop, ?_⟩
+  rcases hcase with ⟨e, q, hr, hp', _, _⟩ | ⟨e, q, q1, _, hr, hq1, hp', _, _, _⟩
+  · exact Or.inl ⟨e, q, hr, hp'⟩
+  · exact Or.inr ⟨e, q, q1, hr, hq1, hp'⟩
+
+/-- what one iteration started at `p < n` adds lies inside `[p, n]`, and the cursor moves forward, not past `n` -/
+theorem Bar.iter_loc {α : Type} (hb : Bar s n E) {p p' : Nat} {mid : List (Entry Span)} {em : List PErr}
+    {noMT : α → Prop} {re : R α} (hlt : p < n) (hE : UN n E re) (hL : ELines s p noMT re)
+    (hcase : (∃ e q, re = .ok e q ∧ p' = (skipBlankBlock s q).1 ∧ junkSpans mid = [] ∧ em = []) ∨
+       (∃ e q q1 content, re = .err e q ∧ skipToNextEntryStart s p q = some q1 ∧
+          p' = (skipBlankBlock s q1).1 ∧ slice s p q1 = some content ∧ junkSpans mid = [content] ∧
+          em = [{ clampErr e q1 with slice := some (p, q1) }])) :
+    p ≤ p' ∧ p' ≤ n ∧ (∀ sp ∈ junkSpans mid, p ≤ sp.start ∧ sp.stop ≤ n) ∧
+      (∀ e ∈ em, ∃ a b, e.slice = some (a, b) ∧ p ≤ a ∧ b ≤ n) := by
+  rcases hcase with ⟨e, q, hr, rfl, hj, rfl⟩ | ⟨e, q, q1, content, hr, hq1, rfl, hsl, hj, rfl⟩
+  · rw [hr] at hE hL
+    have h1 := skipBlankBlock_le s q
+    have h2 : p ≤ q := hL.1
+    exact ⟨by omega, hb.skipBlankBlock_le_n hE, by rw [hj]; simp, by simp⟩
+  · rw [hr] at hE
+    have hq1n := hb.skipToNextEntryStart_le hlt hE hq1
+    have hge := skipToNextEntryStart_ge hq1
+    have h1 := skipBlankBlock_le s q1
+    have hc := slice_some_eq hsl
+    refine ⟨by omega, hb.skipBlankBlock_le_n hq1n, ?_, ?_⟩
+    · rw [hj]
+      intro sp hsp
+      simp only [List.mem_singleton] at hsp
+      subst hsp; subst hc
+      exact ⟨Nat.le_refl _, hq1n⟩
+    · intro e' he'
+      simp only [List.mem_singleton] at he'
+      subst he'
+      exact ⟨p, q1, rfl, Nat.le_refl _, hq1n⟩
+
 /-! ## the loops arrive at `n` -/
+
+/-- the full parser's entry loop, started at `p ≤ n`, reaches the cursor `n` exactly; the Junk entries and errors
+produced on the way lie inside `[p, n]` -/
+theorem parseLoop_reach_loc {s : Src} {n E : Nat} (hb : Bar s n E) (F : Nat) :
+    ∀ (N : Nat) (body : List (Entry Span)) (errs : List PErr) (lc : Option (List Span)) (cnt p : Nat)
+      (r : List (Entry Span) × List PErr), p ≤ n →
+      parseLoop s F N body errs lc cnt p = .done r →
+      ∃ N' mid errsMid lc' cnt', N' ≤ N ∧
+        parseLoop s F N' (body ++ mid) (errs ++ errsMid) lc' cnt' n = .done r ∧
+        (∀ sp ∈ junkSpans mid, p ≤ sp.start ∧ sp.stop ≤ n) ∧
+        (∀ e ∈ errsMid, ∃ a b, e.slice = some (a, b) ∧ p ≤ a ∧ b ≤ n) := by
+  intro N
+  induction N with
+  | zero => intro body errs lc cnt p r _ h; simp [parseLoop] at h
+  | succ N ih =>
+    intro body errs lc cnt p r hp h
+    by_cases hpn : p = n
+    · rw [hpn] at h
+      exact ⟨N + 1, [], [], lc, cnt, Nat.le_refl _, by simpa using h, by simp [junkSpans], by simp⟩
+    · have hlt : p < n := by omega
+      have hsz : p < s.size := by have := hb.lt_size; have := hb.lt; omega
+      obtain ⟨mid, em, lc', cnt', p', hloop, hcase⟩ := parseLoop_step_loc hsz h
+      obtain ⟨hpp', hp'n, hj, he⟩ := hb.iter_loc hlt (hb.getEntry_lt F hlt) (getEntry_lines s F p) hcase
+      obtain ⟨N', mid', em', lc'', cnt'', hN, hfin, hj', he'⟩ := ih _ _ _ _ _ _ hp'n hloop
+      refine ⟨N', mid ++ mid', em ++ em', lc'', cnt'', by omega, by
+        rw [← List.append_assoc, ← List.append_assoc]; exact hfin, ?_, ?_⟩
+      · intro sp hsp
+        rw [junkSpans_append] at hsp
+        rcases List.mem_append.mp hsp with h1 | h1
+        · exact hj sp h1
+        · have := hj' sp h1; exact ⟨by omega, this.2⟩
+      · intro e hmem
+        rcases List.mem_append.mp hmem with h1 | h1
+        · exact he e h1
+        · obtain ⟨a, b, h2, h3, h4⟩ := he' e h1
+          exact ⟨a, b, h2, by omega, h4⟩
 
 /-- the full parser's entry loop, started at or before `n`, reaches the cursor `n` exactly -/
 theorem parseLoop_reach {s : Src} {n E : Nat} (hb : Bar s n E) (F : Nat) :
@@ -346,31 +449,18 @@ theorem parseLoop_reach {s : Src} {n E : Nat} (hb : Bar s n E) (F : Nat) :
       parseLoop s F N body errs lc cnt p = .done r →
       ∃ N' mid errsMid lc' cnt', N' ≤ N ∧
         parseLoop s F N' (body ++ mid) (errs ++ errsMid) lc' cnt' n = .done r := by
-  intro N
-  induction N with
-  | zero => intro body errs lc cnt p r _ h; simp [parseLoop] at h
-  | succ N ih =>
-    intro body errs lc cnt p r hp h
-    by_cases hpn : p = n
-    · rw [hpn] at h
-      exact ⟨N + 1, [], [], lc, cnt, Nat.le_refl _, by simpa using h⟩
-    · have hlt : p < n := by omega
-      have hsz : p < s.size := by have := hb.lt_size; have := hb.lt; omega
-      obtain ⟨mid, em, lc', cnt', p', hloop, hcase⟩ := parseLoop_step_app hsz h
-      have hp' : p' ≤ n := by
-        have hE := hb.getEntry_lt F hlt
-        rcases hcase with ⟨e, q, hr, rfl⟩ | ⟨e, q, q1, hr, hq1, rfl⟩
-        · rw [hr] at hE; exact hb.skipBlankBlock_le_n hE
-        · rw [hr] at hE; exact hb.skipBlankBlock_le_n (hb.skipToNextEntryStart_le hlt hE hq1)
-      obtain ⟨N', mid', em', lc'', cnt'', hN, hfin⟩ := ih _ _ _ _ _ _ hp' hloop
-      exact ⟨N', mid ++ mid', em ++ em', lc'', cnt'', by omega, by
-        rw [← List.append_assoc, ← List.append_assoc]; exact hfin⟩
+  intro N body errs lc cnt p r hp h
+  obtain ⟨N', mid, em, lc', cnt', hN, hfin, _, _⟩ := parseLoop_reach_loc hb F N body errs lc cnt p r hp h
+  exact ⟨N', mid, em, lc', cnt', hN, hfin⟩
 
-/-- the runtime parser's entry loop, started at or before `n`, reaches the cursor `n` exactly -/
-theorem parseRuntimeLoop_reach {s : Src} {n E : Nat} (hb : Bar s n E) (F : Nat) :
+/-- the runtime parser's entry loop, started at `p ≤ n`, reaches the cursor `n` exactly; the Junk entries and
+errors produced on the way lie inside `[p, n]` -/
+theorem parseRuntimeLoop_reach_loc {s : Src} {n E : Nat} (hb : Bar s n E) (F : Nat) :
     ∀ (N : Nat) (body : List (Entry Span)) (errs : List PErr) (p : Nat) (r : List (Entry Span) × List PErr), p ≤ n →
       parseRuntimeLoop s F N body errs p = .done r →
-      ∃ N' mid errsMid, N' ≤ N ∧ parseRuntimeLoop s F N' (body ++ mid) (errs ++ errsMid) n = .done r := by
+      ∃ N' mid errsMid, N' ≤ N ∧ parseRuntimeLoop s F N' (body ++ mid) (errs ++ errsMid) n = .done r ∧
+        (∀ sp ∈ junkSpans mid, p ≤ sp.start ∧ sp.stop ≤ n) ∧
+        (∀ e ∈ errsMid, ∃ a b, e.slice = some (a, b) ∧ p ≤ a ∧ b ≤ n) := by
   intro N
   induction N with
   | zero => intro body errs p r _ h; simp [parseRuntimeLoop] at h
@@ -378,17 +468,33 @@ theorem parseRuntimeLoop_reach {s : Src} {n E : Nat} (hb : Bar s n E) (F : Nat) 
     intro body errs p r hp h
     by_cases hpn : p = n
     · rw [hpn] at h
-      exact ⟨N + 1, [], [], Nat.le_refl _, by simpa using h⟩
+      exact ⟨N + 1, [], [], Nat.le_refl _, by simpa using h, by simp [junkSpans], by simp⟩
     · have hlt : p < n := by omega
       have hsz : p < s.size := by have := hb.lt_size; have := hb.lt; omega
-      obtain ⟨mid, em, p', hloop, hcase⟩ := parseRuntimeLoop_step_app hsz h
-      have hp' : p' ≤ n := by
-        have hE := hb.getEntryRuntime_lt F hlt
-        rcases hcase with ⟨e, q, hr, rfl⟩ | ⟨e, q, q1, hr, hq1, rfl⟩
-        · rw [hr] at hE; exact hb.skipBlankBlock_le_n hE
-        · rw [hr] at hE; exact hb.skipBlankBlock_le_n (hb.skipToNextEntryStart_le hlt hE hq1)
-      obtain ⟨N', mid', em', hN, hfin⟩ := ih _ _ _ _ hp' hloop
-      exact ⟨N', mid ++ mid', em ++ em', by omega, by
-        rw [← List.append_assoc, ← List.append_assoc]; exact hfin⟩
+      obtain ⟨mid, em, p', hloop, hcase⟩ := parseRuntimeLoop_step_loc hsz h
+      obtain ⟨hpp', hp'n, hj, he⟩ :=
+        hb.iter_loc hlt (hb.getEntryRuntime_lt F hlt) (getEntryRuntime_lines s F p) hcase
+      obtain ⟨N', mid', em', hN, hfin, hj', he'⟩ := ih _ _ _ _ hp'n hloop
+      refine ⟨N', mid ++ mid', em ++ em', by omega, by
+        rw [← List.append_assoc, ← List.append_assoc]; exact hfin, ?_, ?_⟩
+      · intro sp hsp
+        rw [junkSpans_append] at hsp
+        rcases List.mem_append.mp hsp with h1 | h1
+        · exact hj sp h1
+        · have := hj' sp h1; exact ⟨by omega, this.2⟩
+      · intro e hmem
+        rcases List.mem_append.mp hmem with h1 | h1
+        · exact he e h1
+        · obtain ⟨a, b, h2, h3, h4⟩ := he' e h1
+          exact ⟨a, b, h2, by omega, h4⟩
+
+/-- the runtime parser's entry loop, started at or before `n`, reaches the cursor `n` exactly -/
+theorem parseRuntimeLoop_reach {s : Src} {n E : Nat} (hb : Bar s n E) (F : Nat) :
+    ∀ (N : Nat) (body : List (Entry Span)) (errs : List PErr) (p : Nat) (r : List (Entry Span) × List PErr), p ≤ n →
+      parseRuntimeLoop s F N body errs p = .done r →
+      ∃ N' mid errsMid, N' ≤ N ∧ parseRuntimeLoop s F N' (body ++ mid) (errs ++ errsMid) n = .done r := by
+  intro N body errs p r hp h
+  obtain ⟨N', mid, em, hN, hfin, _, _⟩ := parseRuntimeLoop_reach_loc hb F N body errs p r hp h
+  exact ⟨N', mid, em, hN, hfin⟩
 
 end FluentProofs.Parser
